@@ -247,6 +247,9 @@ structure IdhInv (env : Env Oid) (store : List Oid) (i0 : RIndex Oid) (acc : Lis
       the store now, or is listed by one -/
   sound : ∀ x ∈ acc.2.keys, x ∈ i0.keys ∨ (x ∈ store ∧ env.isDir x = true) ∨
             ∃ d es, d ∈ store ∧ env.isDir d = true ∧ env.load d = some es ∧ x ∈ es
+  /-- what is assumed present is a directory object that is in the store, or is listed by one -/
+  assumedSound : ∀ x ∈ acc.1, (x ∈ store ∧ env.isDir x = true) ∨
+            ∃ d es, d ∈ store ∧ env.isDir d = true ∧ env.load d = some es ∧ x ∈ es
 
 /-- the trees remembered while collecting are the ones `Tree.load` gives -/
 def DirObjsSound (env : Env Oid) (dirObjs : List (Oid × Option (List Oid))) : Prop :=
@@ -269,9 +272,17 @@ theorem idhStep_inv (env : Env Oid) (store : List Oid) (i0 : RIndex Oid)
       · exact hinv.assumedDirs x h hxd
       · rw [hfs x h] at hxd; cases hxd
       · exact hd
+    have hasound : ∀ x ∈ acc.1 ++ fs ++ [d], (x ∈ store ∧ env.isDir x = true) ∨
+        ∃ d es, d ∈ store ∧ env.isDir d = true ∧ env.load d = some es ∧ x ∈ es := by
+      intro x hx
+      simp only [List.mem_append, List.mem_singleton] at hx
+      rcases hx with (h | h) | rfl
+      · exact hinv.assumedSound x h
+      · exact Or.inr ⟨d, fs, hd, hdir, hload, h⟩
+      · exact Or.inl ⟨hd, hdir⟩
     split
-    · exact ⟨hinv.wf, hinv.present, hassumed, hinv.sound⟩
-    · refine ⟨update_wf env _ d fs hinv.wf hdir hfs, update_dirs_present store _ d fs hinv.present hd, hassumed, ?_⟩
+    · exact ⟨hinv.wf, hinv.present, hassumed, hinv.sound, hasound⟩
+    · refine ⟨update_wf env _ d fs hinv.wf hdir hfs, update_dirs_present store _ d fs hinv.present hd, hassumed, ?_, hasound⟩
       intro x hx
       rcases mem_update_keys _ d fs x hx with h | rfl | h
       · exact hinv.sound x h
@@ -302,7 +313,31 @@ theorem indexedDirHashes_inv (env : Env Oid) (store : List Oid) (i : RIndex Oid)
   · intro d hd
     obtain ⟨h1, h2⟩ := dirExistsOf_sub store i dirObjs d hd
     exact ⟨h1, hdirs d h2⟩
-  · exact ⟨v1, v2, by intro x hx; simp at hx, fun x hx => Or.inl (v3 x hx)⟩
+  · exact ⟨v1, v2, by intro x hx; simp at hx, fun x hx => Or.inl (v3 x hx), by intro x hx; simp at hx⟩
+
+/-- the same relative to the *validated* index: what the validation kept is the only thing taken on trust -/
+theorem indexedDirHashes_inv_validated (env : Env Oid) (store : List Oid) (i : RIndex Oid)
+    (dirObjs : List (Oid × Option (List Oid))) (hw : IndexWF env i) (hfo : FilesOnly env dirObjs)
+    (hso : DirObjsSound env dirObjs) (hdirs : ∀ d ∈ dirObjs.map (·.1), env.isDir d = true) :
+    IdhInv env store (validated store i) (indexedDirHashes env store i dirObjs) := by
+  unfold indexedDirHashes
+  obtain ⟨v1, v2, _⟩ := validated_props env store i hw
+  apply foldl_idh_inv env store (validated store i) dirObjs hfo hso
+  · intro d hd
+    obtain ⟨h1, h2⟩ := dirExistsOf_sub store i dirObjs d hd
+    exact ⟨h1, hdirs d h2⟩
+  · exact ⟨v1, v2, by intro x hx; simp at hx, fun x hx => Or.inl hx, by intro x hx; simp at hx⟩
+
+theorem validated_stale (store : List Oid) (i : RIndex Oid) (h : ∃ d ∈ i.dirs, d ∉ store) :
+    validated store i = {} := by
+  unfold validated
+  split
+  · rename_i he
+    obtain ⟨d, hd, hn⟩ := h
+    have : d ∈ diff i.dirs (inter i.dirs store) := (mem_diff _ _ _).mpr ⟨hd, fun h => hn ((mem_inter _ _ _).mp h).2⟩
+    rw [List.isEmpty_iff.mp he] at this
+    simp at this
+  · rfl
 
 end DvcData.Status
 
@@ -413,8 +448,8 @@ theorem tail_exist (ex1 keys rest1 store : List Oid) (x : Oid)
     · exact Or.inr (Or.inr ⟨h.1.1, h.2⟩)
 
 /-- **with a remote index, a directory object is reported as existing only if it is in the
-    store at query time; the index stays well-typed, never invents an identifier, and after a
-    query that involved a directory every directory it records is in the store** -/
+    store at query time; the index stays well-typed, never invents an identifier, and after any
+    non-empty query - whether or not it names a directory - every directory it records is in the store** -/
 theorem status_index_sound (env : Env Oid) (hfe : FilesOnlyEnv env) (store : List Oid) (idx : RIndex Oid)
     (hw : IndexWF env idx) (shallow : Bool) (req : List Oid) (o : StatusOut Oid)
     (h : status env store (some idx) shallow req = .ok o) :
@@ -422,7 +457,7 @@ theorem status_index_sound (env : Env Oid) (hfe : FilesOnlyEnv env) (store : Lis
     ∃ idx', o.index = some idx' ∧ IndexWF env idx' ∧
       (∀ x ∈ idx'.keys, x ∈ idx.keys ∨ (x ∈ store ∧ env.isDir x = true) ∨
           ∃ d es, d ∈ store ∧ env.isDir d = true ∧ env.load d = some es ∧ x ∈ es) ∧
-      ((∃ d ∈ req, env.isDir d = true) → DirsPresent store idx') := by
+      (req ≠ [] → DirsPresent store idx') := by
   unfold status at h
   split at h
   · cases h
@@ -443,29 +478,13 @@ theorem status_index_sound (env : Env Oid) (hfe : FilesOnlyEnv env) (store : Lis
     · -- nothing asked
       injection h with h; subst h
       refine ⟨by intro x hx; simp at hx, idx, rfl, hw, fun x hx => Or.inl hx, ?_⟩
-      rintro ⟨d, hd, hdd⟩
+      intro hne
       rename_i he
+      obtain ⟨d, hd⟩ := List.exists_mem_of_ne_nil req hne
       have : d ∈ hashes := (hmem d).mpr (Or.inr (Or.inl hd))
       rw [List.isEmpty_iff.mp he] at this; simp at this
-    · by_cases hde : dirObjs.isEmpty = true
-      · -- no directory in the request: the index is only consulted
-        simp only [hde, if_true] at h
-        injection h with h; subst h
-        refine ⟨?_, idx, rfl, hw, fun x hx => Or.inl hx, ?_⟩
-        · intro x hx hxd
-          have hxh : x ∈ hashes := by
-            rcases tail_exist _ _ _ _ x hx with h1 | h1 | h1
-            · simp at h1
-            · exact h1.1
-            · exact h1.1
-          have := hinv.covered x hxh hxd
-          rw [List.isEmpty_iff.mp hde] at this; simp at this
-        · rintro ⟨d, hd, hdd⟩
-          have hdh : d ∈ hashes := (hmem d).mpr (Or.inr (Or.inl hd))
-          have := hinv.covered d hdh hdd
-          rw [List.isEmpty_iff.mp hde] at this; simp at this
-      · simp only [hde, Bool.false_eq_true, if_false] at h
-        injection h with h; subst h
+    · -- the index is validated whatever the request names (repaired code: also for a request of files only)
+      · injection h with h; subst h
         refine ⟨?_, _, rfl, hI.wf, hI.sound, fun _ => hI.present⟩
         intro x hx hxd
         have key : ∀ y, y ∈ (indexedDirHashes env store idx dirObjs).2.keys → env.isDir y = true → y ∈ store := by
@@ -478,6 +497,54 @@ theorem status_index_sound (env : Env Oid) (hfe : FilesOnlyEnv env) (store : Lis
         · exact hI.assumedDirs x ((mem_inter _ _ _).mp h1).2 hxd
         · exact key x h1.2 hxd
         · exact h1.2
+
+/-- **a stale index is never trusted** (the repaired `status`): when a directory object the index records is gone from
+    the store, then - whatever the request names, directories or files only - every identifier reported as existing
+    is in the store or is listed by a directory object that is in the store; nothing is vouched for by the index. -/
+theorem status_stale_index_not_trusted (env : Env Oid) (hfe : FilesOnlyEnv env) (store : List Oid) (idx : RIndex Oid)
+    (hw : IndexWF env idx) (shallow : Bool) (req : List Oid) (o : StatusOut Oid)
+    (h : status env store (some idx) shallow req = .ok o) (hstale : ∃ d ∈ idx.dirs, d ∉ store) :
+    ∀ x ∈ o.exist, x ∈ store ∨ ∃ d es, d ∈ store ∧ env.isDir d = true ∧ env.load d = some es ∧ x ∈ es := by
+  unfold status at h
+  split at h
+  · cases h
+  · rename_i hashes dirObjs hc
+    simp only [Option.isSome_some] at hc
+    have hinv := collect_inv env hfe shallow req [] [] hashes dirObjs hc
+      ⟨by intro p hp; simp at hp, by intro p hp; simp at hp, by intro x hx; simp at hx⟩
+    have hso := treeOf_sound env dirObjs hinv.loaded
+    have hfo : FilesOnly env dirObjs := fun d es ht => hfe d es (hso d es ht)
+    have hdirs : ∀ d ∈ dirObjs.map (·.1), env.isDir d = true := by
+      intro d hd
+      obtain ⟨p, hp, rfl⟩ := List.mem_map.mp hd
+      exact hinv.dirs p hp
+    have hI := indexedDirHashes_inv_validated env store idx dirObjs hw hfo hso hdirs
+    rw [validated_stale store idx hstale] at hI
+    simp only at h
+    split at h
+    · injection h with h; subst h
+      intro x hx; simp at hx
+    · injection h with h; subst h
+      intro x hx
+      rcases tail_exist _ _ _ _ x hx with h1 | h1 | h1
+      · rcases hI.assumedSound x ((mem_inter _ _ _).mp h1).2 with h2 | h2
+        · exact Or.inl h2.1
+        · exact Or.inr h2
+      · rcases hI.sound x h1.2 with h2 | h2 | h2
+        · simp [RIndex.keys] at h2
+        · exact Or.inl h2.1
+        · exact Or.inr h2
+      · exact Or.inl h1.2
+
+/-- the hypotheses are met: an index that still records directory `10` (and its file `1`) after the store lost both;
+    a request naming the file only is answered "missing" by the repaired `status` (the unrepaired one answered "exists") -/
+example :
+    let env : Env Nat := { isDir := fun o => decide (o ≥ 10), load := fun o => if o = 10 then some [1] else none }
+    let idx : RIndex Nat := { dirs := [10], files := [1] }
+    (∃ d ∈ idx.dirs, d ∉ ([] : List Nat)) ∧
+    status env [] (some idx) true [1] = .ok { exist := [], missing := [1], index := some {} } := by
+  refine ⟨⟨10, by simp, by simp⟩, ?_⟩
+  rfl
 
 end DvcData.Status
 
